@@ -215,6 +215,18 @@ pub fn wrong_num_vars(which: usize, seed: u64) -> Verdict {
             let pt: Vec<SF> = vec![SF::from(5u8)];
             flow::<Pst13PC, MP>(&ck, &vk, &lp, &pt, rng)
         }
+        // multilinear PST: `open` alone, polynomial with fewer variables than the trimmed key (the point has the
+        // key's number of coordinates, then the polynomial's): a proof must not be handed out
+        6 | 7 => {
+            let pp = MultilinearPC::<ToyPairing>::setup(3, rng);
+            let (ck, _vk) = MultilinearPC::<ToyPairing>::trim(&pp, 3);
+            let p = ML::from_evaluations_vec(2, e(4, 0));
+            let pt: Vec<SF> = (0..if which == 6 { 3 } else { 2 }).map(|i| SF::from(5 + i as u64)).collect();
+            return match catch(|| MultilinearPC::open(&ck, &p, &pt)) {
+                Ok(_) => Verdict::viol("proof-for-wrong-num-vars", format!("scenario {}: MultilinearPC::open returned a proof for a 2-variable polynomial under a 3-variable key", which)),
+                Err(_) => Verdict::Hold,
+            };
+        }
         // multilinear PST: polynomial with fewer variables than the trimmed key
         _ => {
             let pp = MultilinearPC::<ToyPairing>::setup(3, rng);
